@@ -105,7 +105,10 @@ type Model struct {
 	// HEADResolves: resolves travel as body-less HEAD requests, so a failing
 	// resolve can only carry the status class, not the OCI code.
 	HEADResolves bool
-	Immutable    bool
+	// AnyFailCode: only success/failure of reads is compared, not the error code
+	// (union view: which member's error surfaces is unspecified).
+	AnyFailCode bool
+	Immutable   bool
 	Repos     map[string]*mRepo
 	Uploads   []*mUpload
 }
@@ -527,7 +530,7 @@ func (m *Model) Advance(u *universe, op Op, ok bool) {
 
 // Clone deep-copies the model (for linearizability search).
 func (m *Model) Clone() *Model {
-	c := &Model{Immutable: m.Immutable, HEADResolves: m.HEADResolves, Repos: map[string]*mRepo{}}
+	c := &Model{Immutable: m.Immutable, HEADResolves: m.HEADResolves, AnyFailCode: m.AnyFailCode, Repos: map[string]*mRepo{}}
 	for n, r := range m.Repos {
 		nr := &mRepo{Blobs: map[ociregistry.Digest]*mBlob{}, Mans: map[ociregistry.Digest]*mMan{}, Tags: map[string]ociregistry.Descriptor{}}
 		for k, v := range r.Blobs {
